@@ -284,6 +284,13 @@ def _plan(prop, T):
             dict(flavour="rel", suite="big", args=dict(max_n=400000, probes="lookup", nojudge=1), shards=4, timeout=3400 if T else 150),
             dict(flavour="rel", suite="big", args=dict(max_n=400000, probes="held", nojudge=1), shards=4, timeout=3400 if T else 150),
             dict(flavour="dbg", suite="big", args=dict(max_n=270000, probes="clear", nojudge=1), shards=8, timeout=3400 if T else 150),
+            # valgrind memcheck over the optimised build (uninitialised values, invalid heap accesses, definite leaks)
+            dict(flavour="vg", suite="key-random", args=dict(mon="none", coll="both", nojudge=1), shards=8, budget=2400 * (6 if T else 1), seed_offset=91),
+            dict(flavour="vg", suite="ord-random", args=dict(mon="none", coll="maptree+settree+maplist+setlist+settree-int+maptree-int", nojudge=1), shards=8, budget=2400 * (6 if T else 1), seed_offset=91),
+            dict(flavour="vg", suite="seg-random", args=dict(mon="none", nojudge=1), shards=4, budget=4000 * (6 if T else 1), seed_offset=91),
+            dict(flavour="vg", suite="exp-types", args=dict(mon="none", kinds="key,seg", coll="both", nojudge=1), shards=4, budget=60 * (6 if T else 1), seed_offset=91),
+            dict(flavour="vg", suite="seg-domains", args=dict(grid_len=24, grid_lo=4, nojudge=1), shards=4),
+            dict(flavour="vg", suite="export-size", args=dict(max_n=20000, nojudge=1), shards=4),
             miri("key-random", 72, 6, T, mon="none", coll="both", nojudge=1, **MIRI_KEY),
             miri("ord-random", 60, 6, T, mon="none", coll="maptree+settree+maplist+setlist+settree-int", nojudge=1, **MIRI_ORD),
             miri("seg-random", 60, 4, T, mon="none", len=40, nojudge=1),
@@ -417,11 +424,15 @@ def _plan(prop, T):
                 dict(flavour="rel", suite="ord-random", args=dict(mon="held", coll="maptree+settree", profile="marathon"), shards=16, budget=16 * 1, timeout=3400 if T else 150, seed_offset=62),
                 dict(flavour="rel", suite="big", args=dict(max_n=4000000 if T else 1600000, probes="held"), shards=16, timeout=3400 if T else 150),
                 miri("ord-random", 64, 8, T, mon="held", coll="maptree+settree", profile="handles-held-across-inserts,small-mixed", maxlen=40),
+                # "any number of subsequent insertions", read literally: also insertions of keys that are already stored
+                dict(flavour="dbg", suite="dup-held", args=dict(), shards=16, budget=48000 * (8 if T else 1), seed_offset=5),
+                dict(flavour="rel", suite="dup-held", args=dict(), shards=16, budget=96000 * (8 if T else 1), seed_offset=6),
+                miri("dup-held", 24, 4, T),
             ],
             rule="evaluation = one held handle re-checked after later insertions / lookups: value_by_index(handle) is still the same entry and first_index_less(key) == handle; distinct non-trivial = distinct (reference key set, number of held handles) + closed canonical shapes",
-            require={"held_handles_rechecked": 200000, "handles_taken": 50000, "states": 3000, "max_entries_built": 1500000, "growth_checkpoints_with_held_handles": 100},
+            require={"held_handles_rechecked": 200000, "held_handles_rechecked_after_duplicate_insert": 1000000, "handles_taken": 50000, "states": 3000, "max_entries_built": 1500000, "growth_checkpoints_with_held_handles": 100},
             exhaustive_scope="every reachable shape over the listed universes x a handle for every stored key x every sequence of 2 (thorough: 3) further insertions",
-            assumptions=["handles are re-acquired after every deletion / clear, as the property allows"],
+            assumptions=["handles are re-acquired after every deletion / clear, as the property allows", "after an insertion that repeats a stored key only the handles of OTHER keys are re-checked, and that key's handle is dropped for good"],
         )
     if prop == "C18":
         return dict(
@@ -433,6 +444,7 @@ def _plan(prop, T):
                 dict(flavour="dbg", suite="fault", args=dict(), shards=16, budget=2800 * 4 * (8 if T else 1)),
                 dict(flavour="rel", suite="fault", args=dict(), shards=16, budget=2800 * 4 * (8 if T else 1), seed_offset=13),
                 dict(flavour="asan", suite="fault", args=dict(), shards=8, budget=700 * 2 * (8 if T else 1), seed_offset=14),
+                dict(flavour="vg", suite="fault", args=dict(), shards=8, budget=400 * (8 if T else 1), seed_offset=15),
                 miri("fault", 7, 7, T, len=8, bulk=0),
             ],
             rule="evaluation = one injection point (history, operation index, callback index) enumerated exhaustively per history: the callback panics, the panic is caught, then structure + slot accounting are validated, observable contents must equal the reference before or after the operation, the rest of the history runs under all monitors, and payload drops must balance; distinct non-trivial = distinct (collection, operation, callback index, reference contents before)",
@@ -445,12 +457,12 @@ def _plan(prop, T):
             jobs=[
                 dict(flavour="rel", suite="export-size", args=dict(max_n=4000000 if T else 300000), shards=16, mem_limit=(24 if T else 8) * GB, timeout=3400 if T else 150),
                 key_closure("dbg", "capacity", T),
-                key_random("rel", "capacity", "both", 4800, T, mem_limit=8 * GB),
-                dict(flavour="rel", suite="key-random", args=dict(mon="capacity", coll="both", profile="marathon"), shards=16, budget=16, timeout=3400 if T else 150, seed_offset=61, mem_limit=8 * GB),
+                key_random("rel", "capacity", "tree", 4800, T, mem_limit=8 * GB),
+                dict(flavour="rel", suite="key-random", args=dict(mon="capacity", coll="tree", profile="marathon"), shards=16, budget=16, timeout=3400 if T else 150, seed_offset=61, mem_limit=8 * GB),
             ],
             rule="evaluation = one into_ordered_vec whose returned capacity must be <= 4n+64 (n = entries physically stored) and whose largest single allocation request (counting allocator) must be <= (4n+64)*16 bytes, under an address-space limit; distinct non-trivial = distinct (n, capacity, insertion order, expired share)",
             require={"max_entries_exported": 250000, "op_export": 3000},
-            exhaustive_scope="sizes 0..=64, then x1.5 steps and 2^k-1 / 2^k up to the maximum, in 4 insertion orders, with and without expired entries, tree and list",
+            exhaustive_scope="sizes 0..=64, then x1.5 steps and 2^k-1 / 2^k up to the maximum, in 4 insertion orders, with and without expired entries (the list variant is exported too, but only the tree's capacity is judged: C19 speaks of the tree)",
             assumptions=["worker address space capped with RLIMIT_AS so that an oversized reservation fails fast"],
         )
     if prop == "C20":
